@@ -333,3 +333,102 @@ def r06_3(ctx, repo):
         _check(ctx, rule, where, construct, 'std', got[1]**2, std**2,
                'reported std = closed-form standard deviation of the density')
     ctx.floor(rule, 4)
+
+
+# -----------------------------------------------------------------------------
+# R05.5 — return-form helpers `_shape`: the hierarchical (reduce=True) form
+# carries the upstream sensitivities
+# -----------------------------------------------------------------------------
+def _deps_on_path(fn, flags):
+    """Data dependences of the returned tuple elements of `fn` on its
+    parameters, along the path selected by the boolean `flags`
+    (name -> bool).  -> list of sets (one per returned element) or None."""
+    from ..pathwalk import beval
+    params = [a.arg for a in fn.args.args if a.arg != 'self']
+    deps = {p: {p} for p in params}
+
+    def used(e):
+        out = set()
+        for n in ast.walk(e):
+            if isinstance(n, ast.Name) and n.id in deps:
+                out |= deps[n.id]
+        return out
+
+    def run(stmts):
+        for s in stmts:
+            if isinstance(s, ast.If):
+                v = beval(s.test, dict(flags))
+                if v is None:
+                    return 'unknown'
+                r = run(s.body if v else s.orelse)
+                if r is not None:
+                    return r
+            elif isinstance(s, ast.Assign):
+                d = used(s.value)
+                for t in s.targets:
+                    for x in ast.walk(t):
+                        if isinstance(x, ast.Name) and isinstance(
+                                x.ctx, ast.Store):
+                            deps[x.id] = set(d)
+            elif isinstance(s, ast.AugAssign) and isinstance(
+                    s.target, ast.Name):
+                deps[s.target.id] = deps.get(s.target.id, set()) | used(
+                    s.value)
+            elif isinstance(s, ast.Return):
+                v = s.value
+                if isinstance(v, ast.Tuple):
+                    return [used(e) for e in v.elts]
+                return [used(v)] if v is not None else []
+        return None
+    return run(fn.body)
+
+
+def r05_5(ctx, repo):
+    rule = 'R05.5'
+    n = 0
+    for cls in sorted(repo.classes):
+        if not repo.is_subclass(cls, 'PopulationModel'):
+            continue
+        fn = repo.cls(cls).methods.get('_shape')
+        if fn is None:
+            continue
+        params = [a.arg for a in fn.args.args][1:]
+        if len(params) < 4 or 'reduce' not in params:
+            ctx.error(rule, '%s._shape: signature (score, dpsi, dtheta, '
+                      'reduce, ...) not recognised' % cls)
+            continue
+        n += 1
+        construct = '%s._shape' % cls
+        where = repo.loc(fn, cls, '_shape')
+        for flat in (True, False):
+            flags = {'reduce': True}
+            if 'flattened' in params:
+                flags['flattened'] = flat
+            r = _deps_on_path(fn, flags)
+            if r == 'unknown' or r is None or len(r) != 2:
+                ctx.error(rule, '%s: reduce=True return not derived' % (
+                    construct))
+                break
+            missing = []
+            if params[0] not in r[0]:
+                missing.append('the score does not derive from `%s`'
+                               % params[0])
+            if params[1] not in r[1]:
+                missing.append(
+                    'the returned sensitivities do not depend on `%s`, the '
+                    'sensitivities w.r.t. the individual parameters '
+                    '(which carry the upstream dlogp/dpsi)' % params[1])
+            if missing:
+                ctx.violation(
+                    rule, where, construct, 'reduce form',
+                    'in the hierarchical return form (reduce=True) %s: '
+                    'gradients of a hierarchical objective lose the '
+                    'contribution of the individual likelihoods for these '
+                    'dimensions' % '; '.join(missing))
+                break
+        else:
+            ctx.ok(rule, where, construct,
+                   'reduce=True returns (score, f(dpsi, ...)) — the upstream '
+                   'sensitivities are carried into the hierarchical form')
+    if n < 3:
+        ctx.error(rule, 'only %d _shape implementations found (floor 3)' % n)
